@@ -1,79 +1,94 @@
 /-
 C18 — RTP latching locks onto a legitimate source and then stays put.
-Property theorems only; helper lemmas live in `RtcModel/Lemmas/Latch.lean`.
+Property theorems only; helper lemmas live in `RtcModel/Lemmas/Latch.lean`, the independently
+written documented-rule spec in `RtcModel/LatchSpec.lean`, the receive ∥ API-op interleaving model
+in `RtcModel/LatchRace.lean`.
 
-Reading of the property used here (see DESIGN.md §C18):
-* "destination" means a configured destination (`remote.port ≠ 0`) on a datagram socket
-  (`tcp = false`); the bootstrap adoption of the first source while no destination is configured
-  and the accepted-TCP-stream adoption are modelled (and compared with the code) but are outside
-  the statement, which is about moving *away from* a destination.
+Round 2: every statement about "with latching enabled" has `s.latchOn = true` as its ONLY
+configuration hypothesis — no `port ≠ 0`, no `tcp = false` (round 1's `Wf`). That is provable
+because of the latch agent's `fix:` commits (see `known_findings.d/C18.json`); for the code before
+them the statements were false, see the `…_superseded_witness` examples at the end.
 -/
 import RtcModel.Lemmas.Latch
+import RtcModel.Lemmas.LatchRace
+import RtcModel.LatchSpec
 
 namespace RtcModel.Theorems.C18
-open RtcModel.Latch RtcModel.Generated
+open RtcModel.Latch RtcModel.LatchSpec RtcModel.Generated
 
-/-- generated-constant obligation: the model's 12-byte pattern in `classify` is the code's bound -/
-theorem const_min_rtp_len : latchMinRtpLen = 12 := by decide
-/-- generated-constant obligations: demux byte ranges are disjoint and RTCP PT range sane -/
-theorem const_ranges : dtlsLo < dtlsHi ∧ dtlsHi ≤ rtpLo ∧ rtpLo < rtpHi ∧ rtcpPtLo ≤ rtcpPtHi ∧ rtcpPtHi < 256 := by decide
+/-- generated-constant obligation: the byte reads of `classify` stay below the lengths tested
+before them (so `byteAt`'s default is never observed), the fields have the widths the big-endian
+reads assume, the demux ranges are disjoint, and the counters are `u8` / sequence numbers `u16`; the doc comment still lists the rules in the order marker, run,
+timeout (the precedence `LatchSpec.Documented` encodes). -/
+theorem const_layout :
+    latchRtcpPtOff < latchRtcpMinLen ∧ latchSsrcEnd < latchMinRtpLen ∧ latchSeqEnd < latchMinRtpLen ∧
+    latchTsEnd < latchMinRtpLen ∧ latchMarkerOff < latchMinRtpLen ∧
+    latchSsrcEnd + 1 - latchSsrcOff = 4 ∧ latchSeqEnd + 1 - latchSeqOff = 2 ∧ latchTsEnd + 1 - latchTsOff = 4 ∧
+    latchMarkerMask = 128 ∧
+    dtlsLo < dtlsHi ∧ dtlsHi ≤ rtpLo ∧ rtpLo < rtpHi ∧ rtcpPtLo ≤ rtcpPtHi ∧ rtcpPtHi < 256 ∧
+    totalMax = 255 ∧ countMax = 255 ∧ consecMax = 255 ∧ seqMod = 65536 ∧ probMaxBits = probTotalBits ∧
+    docRuleMarkerIdx = 1 ∧ docRuleRunIdx = 2 ∧ docRuleTimeoutIdx = 3 := by decide
 
-/-- Ops that are *not* a signaling reset / re-arm of the latch. -/
+/-! ### Once committed, nothing but a signaling reset moves the destination -/
+
+/-- Ops that are *not* a signaling reset of the latch (`reset_latch`, signaling retarget). -/
 def NonReset : Op → Prop
-  | .reset | .sig _ | .enable | .maxp _ => False
+  | .reset | .sig _ => False
   | _ => True
 
-/-- Datagram socket with a configured destination. -/
-def Wf (s : St) : Prop := s.tcp = false ∧ s.remote.port ≠ 0
-
-/-- One step: once latched, no packet of any kind from any address and no selected-pair
-update changes the RTP destination or clears the latch. -/
-theorem latched_sticky_step (s : St) (op : Op) (hw : Wf s) (hon : s.latchOn = true)
+/-- (helper, not counted) One step: once latched, no packet of any kind from any address, no selected-pair update and
+no other API call except the two signaling resets changes the RTP destination or clears the latch —
+whatever the destination is (unset, port 0) and whatever the socket kind. -/
+private theorem latched_sticky_step (s : St) (op : Op) (hon : s.latchOn = true)
     (hl : s.rtpLatched = true) (hop : NonReset op) :
-    (step s op).remote = s.remote ∧ (step s op).rtpLatched = true ∧
-    (step s op).latchOn = true ∧ Wf (step s op) := by
-  obtain ⟨hu, hp⟩ := hw
+    (step s op).remote = s.remote ∧ (step s op).rtpLatched = true ∧ (step s op).latchOn = true := by
   cases op with
   | pkt a k =>
-    have had := adopt_udp s a hu hp
-    cases k <;> simp [step, receive, had, hon, hl, Wf, hu, hp, rtpLatch_latched]
-  | enable => exact absurd hop (by simp [NonReset])
+    have had := adopt_on s a hon
+    cases k <;> simp [step, receive, had, hon, hl, rtpLatch_latched]
+  | enable => simp [step, hl]
   | reset => exact absurd hop (by simp [NonReset])
   | sig a => exact absurd hop (by simp [NonReset])
-  | maxp v => exact absurd hop (by simp [NonReset])
+  | maxp v => simp [step, hon, hl]
   | pair a =>
     by_cases h : s.remote = a
-    · simp [step, setFromPair, hon, hl, h, Wf]; subst h; exact ⟨hu, hp⟩
-    · simp [step, setFromPair, hon, hl, h, Wf]; exact ⟨hu, hp⟩
-  | ssrc v => simp [step, hon, hl, Wf]; exact ⟨hu, hp⟩
-  | rtcpAddr a => simp [step, setRtcpAddr, hon, hl, Wf]; exact ⟨hu, hp⟩
+    · simp [step, setFromPair, hon, hl, h]
+    · simp [step, setFromPair, hon, hl, h]
+  | ssrc v => simp [step, hon, hl]
+  | rtcpAddr a => simp [step, setRtcpAddr, hon, hl]
 
-/-- **latched_sticky**: for every (unbounded) sequence of non-reset operations after commit —
-RTP with any SSRC, RTCP, DTLS, garbage, from any address, selected-pair updates, SSRC and
-RTCP-address updates — the RTP destination is unchanged and the latch stays set. -/
-theorem latched_sticky (s : St) (ops : List Op) (hw : Wf s) (hon : s.latchOn = true)
+/-- **latched_sticky**: for every (unbounded) sequence of operations after commit that contains no
+signaling reset — RTP with any SSRC, RTCP, DTLS, garbage, from any address, selected-pair updates,
+SSRC / RTCP-address / window-size updates, `enable_latch_on_rtp` — the RTP destination is
+unchanged and the latch stays set. -/
+theorem latched_sticky (s : St) (ops : List Op) (hon : s.latchOn = true)
     (hl : s.rtpLatched = true) (hops : ∀ o ∈ ops, NonReset o) :
     (run s ops).remote = s.remote ∧ (run s ops).rtpLatched = true := by
   induction ops generalizing s with
   | nil => exact ⟨rfl, hl⟩
   | cons o os ih =>
-    have h1 := latched_sticky_step s o hw hon hl (hops o (by simp))
-    have h2 := ih (step s o) h1.2.2.2 h1.2.2.1 h1.2.1 (fun o' ho' => hops o' (by simp [ho']))
+    have h1 := latched_sticky_step s o hon hl (hops o (by simp))
+    have h2 := ih (step s o) h1.2.2 h1.2.1 (fun o' ho' => hops o' (by simp [ho']))
     simp only [run, List.foldl_cons] at *
     exact ⟨h2.1.trans h1.1, h2.2⟩
 
-example : Wf (init ⟨1, 5001⟩ 3 false) ∧
-    (run (init ⟨1, 5001⟩ 0 false) [.enable, .pkt ⟨2, 5002⟩ (.rtp 7 1 1 false)]).rtpLatched = true ∧
-    (run (init ⟨1, 5001⟩ 0 false) [.enable, .pkt ⟨2, 5002⟩ (.rtp 7 1 1 false)]).remote = ⟨2, 5002⟩ := by
-  refine ⟨⟨rfl, by decide⟩, by decide, by decide⟩
+/-- non-vacuity: a connection created with an UNSET destination (0.0.0.0:0, as the offerer's extra
+transports are) commits to the first source and then meets the hypotheses of `latched_sticky` -/
+example : let s := run (init ⟨0, 0⟩ 0 false) [.enable, .pkt ⟨2, 5002⟩ (.rtp 7 1 1 false)]
+    s.latchOn = true ∧ s.rtpLatched = true ∧ s.remote = ⟨2, 5002⟩ := by decide
 
 /-! ### RTCP -/
 
-/-- RTCP arrivals never move the RTP destination and never touch the RTP latch. -/
-theorem rtcp_never_moves_rtp (s : St) (a : Addr) (hw : Wf s) :
+/-- RTCP arrivals never move the RTP destination and never touch the RTP latch or the probation
+table: with latching enabled unconditionally, without latching whenever a destination is set on a
+datagram socket. -/
+theorem rtcp_never_moves_rtp (s : St) (a : Addr)
+    (h : s.latchOn = true ∨ (s.tcp = false ∧ s.remote.port ≠ 0)) :
     (receive s a .rtcp).remote = s.remote ∧ (receive s a .rtcp).rtpLatched = s.rtpLatched ∧
     (receive s a .rtcp).prob = s.prob := by
-  simp [receive, adopt_udp s a hw.1 hw.2]
+  rcases h with h | h
+  · simp [receive, adopt_on s a h]
+  · simp [receive, adopt_udp s a h.1 h.2]
 
 /-- Only an RTCP packet can change the RTCP destination; it does so only while the one-shot
 flag is clear, sets the flag, and the new destination is that packet's source. -/
@@ -103,7 +118,7 @@ theorem rtcp_learnt_sticky (s : St) (ops : List Op) (hl : s.rtcpLatched = true)
       cases o with
       | pkt a k =>
         cases k <;> simp [step, receive, hl, rtcpLearn_latched]
-      | enable => simp only [step, enableLatch]; split <;> (try split) <;> simp [hl]
+      | enable => simp [step, hl]
       | reset => exact absurd ho (by simp [NonRtcpReset])
       | sig a => exact absurd ho (by simp [NonRtcpReset])
       | rtcpAddr a => exact absurd ho (by simp [NonRtcpReset])
@@ -116,333 +131,498 @@ theorem rtcp_learnt_sticky (s : St) (ops : List Op) (hl : s.rtcpLatched = true)
 
 /-! ### Commit -/
 
-/-- A packet that the latch logic treats as legitimate RTP for the current expectation. -/
-def Legit (s : St) : Kind → Prop
-  | .rtp ssrc _ _ _ => s.expected = 0 ∨ ssrc = s.expected
-  | _ => False
+/-- **commit_is_rule_winner**: what one expected-SSRC RTP packet does while the latch is open.
+With a probation window: if the rules pick `w` on the updated table the destination becomes exactly
+`w` — whatever it was before the packet —, the latch is set and the table dropped (false before round
+1's `fix:` be978e0); if no rule fires the packet is only recorded, the latch stays open and the
+destination follows this packet's source. Without a window (`max = 0`) the packet commits to its
+own source at once. -/
+theorem commit_is_rule_winner (s : St) (a : Addr) (ssrc seq ts : Nat) (m : Bool)
+    (hon : s.latchOn = true) (hl : s.rtpLatched = false) (hleg : s.expected = 0 ∨ ssrc = s.expected) :
+    let s' := receive s a (.rtp ssrc seq ts m)
+    (∀ p, s.prob = some p →
+      let p1 : Prob := { p with total := satInc totalMax p.total, cands := observe p.cands a seq ts m }
+      (∀ w, winner p1 = some w → s'.remote = w ∧ s'.rtpLatched = true ∧ s'.prob = none) ∧
+      (winner p1 = none → s'.remote = a ∧ s'.rtpLatched = false ∧ s'.prob = some p1)) ∧
+    (s.prob = none → s'.remote = a ∧ s'.rtpLatched = true) := by
+  refine ⟨fun p hp => ⟨fun w hw => commit_step s a ssrc seq ts m p w hon hl hp hleg hw, fun hw => ?_⟩, fun hp => ?_⟩
+  · have h := no_winner_step s a ssrc seq ts m p hon hl hp hleg hw
+    exact ⟨h.2.1, h.1, h.2.2⟩
+  · have h := immediate_step s a ssrc seq ts m hon hl hp hleg
+    exact ⟨h.2, h.1⟩
 
-instance (s : St) (k : Kind) : Decidable (Legit s k) := by
-  cases k <;> simp [Legit] <;> infer_instance
+/-! ### The documented rules, in the documented order
 
-/-- **commit_is_rule_winner**: when a probation packet makes the rules pick `w`, the committed
-destination is exactly `w`, whatever the destination was before the packet
-(this statement was false before the `fix:` commit — see `known_findings.json`). -/
-theorem commit_is_rule_winner (s : St) (a : Addr) (ssrc seq ts : Nat) (m : Bool) (p : Prob) (w : Addr)
-    (hon : s.latchOn = true) (hl : s.rtpLatched = false) (hp : s.prob = some p)
-    (hleg : s.expected = 0 ∨ ssrc = s.expected)
-    (hw : winner { p with total := satAdd8 p.total, cands := observe p.cands a seq ts m } = some w) :
-    (receive s a (.rtp ssrc seq ts m)).remote = w ∧
-    (receive s a (.rtp ssrc seq ts m)).rtpLatched = true ∧
-    (receive s a (.rtp ssrc seq ts m)).prob = none := by
-  have hm : (moveTo (adopt s a) s.remote a).remote = a := moveTo_remote _ _ _ (adopt_remote s a)
-  simp only [receive, rtpLatch, adopt_latchOn, adopt_rtpLatched, adopt_expected, adopt_prob, hon, hl, hp]
-  simp [hleg, hw, commitTo_remote _ _ _ hm]
+`LatchSpec.Documented` is written from the doc comment (relations on the table, precedence
+"evaluated in order"); `winner` mirrors the code (iterators, branch order). -/
 
-/-- no rule fires ⇒ the packet is only recorded (and the destination follows the source) -/
-theorem no_winner_keeps_probation (s : St) (a : Addr) (ssrc seq ts : Nat) (m : Bool) (p : Prob)
-    (hon : s.latchOn = true) (hl : s.rtpLatched = false) (hp : s.prob = some p)
-    (hleg : s.expected = 0 ∨ ssrc = s.expected)
-    (hw : winner { p with total := satAdd8 p.total, cands := observe p.cands a seq ts m } = none) :
-    (receive s a (.rtp ssrc seq ts m)).rtpLatched = false ∧
-    (receive s a (.rtp ssrc seq ts m)).prob =
-      some { p with total := satAdd8 p.total, cands := observe p.cands a seq ts m } := by
-  simp only [receive, rtpLatch, adopt_latchOn, adopt_rtpLatched, adopt_expected, adopt_prob, hon, hl, hp]
-  simp [hleg, hw, hl]
-
-
-/-! ### The documented rules -/
-
-/-- **Rule 1 (marker flush)**: if any observed source has sent a marker packet, the winner is a
-marker source with the lowest first sequence number among marker sources. -/
-theorem winner_rule1 (p : Prob) (hm : ∃ c ∈ p.cands, c.hasMarker = true) :
-    ∃ c ∈ p.cands, c.hasMarker = true ∧ winner p = some c.addr ∧
-      ∀ d ∈ p.cands, d.hasMarker = true → c.firstSeq ≤ d.firstSeq := by
-  unfold winner
+/-- **winner_matches_documented_rules** (soundness): whatever the code decides is a decision the
+documented rules allow, under the documented precedence 1 > 2 > 3 — including the documented
+tie-break of rule 3 (lowest `first_seq` among the highest counts) and of rule 1. -/
+theorem winner_matches_documented_rules (p : Prob) (w : Addr) (h : winner p = some w) :
+    Documented p w := by
+  unfold winner at h
   cases hmin : minByFirstSeq (p.cands.filter (·.hasMarker)) with
-  | none =>
-    have := minByFirstSeq_none _ hmin
-    obtain ⟨c, hc, hcm⟩ := hm
-    have : c ∈ p.cands.filter (·.hasMarker) := by simp [hc, hcm]
-    simp_all
   | some mw =>
+    simp [hmin] at h
     have hmem := minByFirstSeq_mem _ _ hmin
     simp at hmem
-    refine ⟨mw, hmem.1, hmem.2, rfl, ?_⟩
+    left
+    refine ⟨mw, ⟨hmem.1, hmem.2, ?_⟩, h⟩
     intro d hd hdm
     exact minByFirstSeq_le _ _ hmin d (by simp [hd, hdm])
+  | none =>
+    have hnil := minByFirstSeq_none _ hmin
+    have hno1 : ¬ ∃ c, Rule1 p c := by
+      rintro ⟨c, hc, hcm, _⟩
+      have : c ∈ p.cands.filter (·.hasMarker) := by simp [hc, hcm]
+      simp [hnil] at this
+    simp [hmin] at h
+    cases hrun : runWinner p with
+    | some rw =>
+      simp [hrun] at h
+      have hr := runWinner_some p rw hrun
+      right; left
+      exact ⟨hno1, rw, ⟨hr.2.1, by simpa using hr.2.2, by simpa using hr.1⟩, h⟩
+    | none =>
+      simp [hrun] at h
+      have hno2 : ¬ ∃ c, Rule2 p c := by
+        rintro ⟨c, hc, hcc, ht⟩
+        simp at hcc ht
+        rcases runWinner_none p hrun with h' | h'
+        · simp at h'; omega
+        · have := h' c hc; simp at this; omega
+      obtain ⟨hlim, c, hc, hca⟩ := h
+      right; right
+      exact ⟨hno1, hno2, c, ⟨hlim, maxByRule3_mem _ _ hc, maxByRule3_ge _ _ hc, maxByRule3_tie _ _ hc⟩, hca⟩
 
-/-- **Rule 3 (timeout fallback)**: with no marker seen and the probation limit reached, the winner
-has the highest packet count. -/
-theorem winner_rule3 (p : Prob) (hm : ∀ c ∈ p.cands, c.hasMarker = false) (hlim : p.total ≥ p.max)
-    (hne : p.cands ≠ []) :
-    ∃ c ∈ p.cands, winner p = some c.addr ∧ ∀ d ∈ p.cands, d.packetCount ≤ c.packetCount := by
-  have hf : p.cands.filter (·.hasMarker) = [] := by
-    simp [List.filter_eq_nil_iff]; intro c hc; simp [hm c hc]
+/-- **documented_decision_is_taken** (completeness): whenever the documented rules select some
+source, the code commits (it never keeps probing past a documented decision). -/
+theorem documented_decision_is_taken (p : Prob) (h : ∃ w, Documented p w) : (winner p).isSome := by
+  obtain ⟨w, h⟩ := h
   unfold winner
-  simp [hf, minByFirstSeq, hlim]
-  have := maxByRule3_isSome p.cands hne
-  cases h : maxByRule3 p.cands with
-  | none => simp_all
-  | some c => exact ⟨c, maxByRule3_mem _ _ h, by simp, maxByRule3_ge _ _ h⟩
+  cases hmin : minByFirstSeq (p.cands.filter (·.hasMarker)) with
+  | some mw => simp
+  | none =>
+    have hnil := minByFirstSeq_none _ hmin
+    have hno1 : ¬ ∃ c, Rule1 p c := by
+      rintro ⟨c, hc, hcm, _⟩
+      have : c ∈ p.cands.filter (·.hasMarker) := by simp [hc, hcm]
+      simp [hnil] at this
+    cases hrun : runWinner p with
+    | some rw => simp
+    | none =>
+      rcases h with h | h | h
+      · obtain ⟨c, hc, _⟩ := h
+        exact absurd ⟨c, hc⟩ hno1
+      · obtain ⟨_, c, ⟨hc, hcc, ht⟩, _⟩ := h
+        simp at hcc ht
+        rcases runWinner_none p hrun with h' | h'
+        · simp at h'; omega
+        · have := h' c hc; simp at this; omega
+      · obtain ⟨_, _, c, ⟨hlim, hc, _, _⟩, _⟩ := h
+        have hne : p.cands ≠ [] := by intro he; simp [he] at hc
+        have := maxByRule3_isSome p.cands hne
+        simp [hlim]
+        cases hm : maxByRule3 p.cands <;> simp_all
 
-/-- **Rule 2 (consecutive dominance)**: with no marker and below the limit, a winner exists iff at
-least `3` packets were observed and some source has a consecutive run of `2`; it is the first such. -/
-theorem winner_rule2 (p : Prob) (hm : ∀ c ∈ p.cands, c.hasMarker = false) (hlim : p.total < p.max) :
-    winner p = if p.total ≥ 3 then (p.cands.find? (fun c => c.consecutive ≥ 2)).map (·.addr) else none := by
-  have hf : p.cands.filter (·.hasMarker) = [] := by
-    simp [List.filter_eq_nil_iff]; intro c hc; simp [hm c hc]
-  have : ¬ p.total ≥ p.max := by omega
-  unfold winner
-  simp [hf, minByFirstSeq, this]
+/-- **documented_rules_deterministic** (tightness of the spec): on a table without ties the
+documented rules admit exactly one address — so together with soundness the code's winner IS the
+documented winner there. -/
+theorem documented_rules_deterministic (p : Prob) (w₁ w₂ : Addr) (hn : NoTies p)
+    (h₁ : Documented p w₁) (h₂ : Documented p w₂) : w₁ = w₂ := by
+  obtain ⟨hn1, hn2, hn3⟩ := hn
+  rcases h₁ with ⟨c, hc, rfl⟩ | ⟨n1, c, hc, rfl⟩ | ⟨n1, n2, c, hc, rfl⟩ <;>
+  rcases h₂ with ⟨d, hd, rfl⟩ | ⟨m1, d, hd, rfl⟩ | ⟨m1, m2, d, hd, rfl⟩
+  · have := hn1 c hc.1 d hd.1 hc.2.1 hd.2.1 (Nat.le_antisymm (hc.2.2 d hd.1 hd.2.1) (hd.2.2 c hc.1 hc.2.1))
+    rw [this]
+  · exact absurd ⟨c, hc⟩ m1
+  · exact absurd ⟨c, hc⟩ m1
+  · exact absurd ⟨d, hd⟩ n1
+  · rw [hn2 c hc.1 d hd.1 hc.2.1 hd.2.1]
+  · exact absurd ⟨c, hc⟩ m2
+  · exact absurd ⟨d, hd⟩ n1
+  · exact absurd ⟨d, hd⟩ n2
+  · obtain ⟨_, hcm, hcge, hctie⟩ := hc
+    obtain ⟨_, hdm, hdge, hdtie⟩ := hd
+    have hcnt : c.packetCount = d.packetCount := Nat.le_antisymm (hdge c hcm) (hcge d hdm)
+    rw [hn3 c hcm d hdm hcnt (Nat.le_antisymm (hctie d hdm hcnt.symm) (hdtie c hcm hcnt))]
+
+/-- the competing case of the audit (window 6, no markers, `B1 A100 B10 A101 B20 A102`): the run of
+A and the count tie both apply at the 6th packet; rule 2 is consulted first and A wins, while rule 3
+taken alone would select B. (The code before the rule-order `fix:` committed B.) -/
+example :
+    let A : Cand := ⟨⟨1, 5001⟩, 100, 102, 0, 3, 2, false⟩
+    let B : Cand := ⟨⟨2, 5002⟩, 1, 20, 0, 3, 0, false⟩
+    let p : Prob := ⟨[B, A], 6, 6⟩
+    winner p = some A.addr ∧ Rule2 p A ∧ Rule3 p B ∧ ¬ Rule3 p A := by
+  refine ⟨by decide, ⟨by decide, by decide, by decide⟩, ⟨by decide, by decide, by decide, by decide⟩, ?_⟩
+  intro h; have := h.2.2.2 ⟨⟨2, 5002⟩, 1, 20, 0, 3, 0, false⟩ (by decide) (by decide)
+  revert this; decide
 
 /-! ### Commit within the configured number of probation packets -/
 
 /-- probation bookkeeping invariant: the counter is strictly below the (u8) limit -/
 def PInv (p : Prob) : Prop := p.total < p.max ∧ p.max ≤ 255
 
-/-- One legitimate packet during probation either commits or advances the counter by one. -/
-theorem legit_packet_progress (s : St) (a : Addr) (ssrc seq ts : Nat) (m : Bool) (p : Prob)
-    (hon : s.latchOn = true) (hl : s.rtpLatched = false) (hp : s.prob = some p) (hinv : PInv p)
-    (hleg : s.expected = 0 ∨ ssrc = s.expected) :
-    let s' := receive s a (.rtp ssrc seq ts m)
-    s'.rtpLatched = true ∨
-    (s'.rtpLatched = false ∧ s'.latchOn = true ∧ s'.expected = s.expected ∧
-      ∃ p', s'.prob = some p' ∧ p'.total = p.total + 1 ∧ p'.max = p.max ∧ PInv p') := by
-  intro s'
-  cases hw : winner { p with total := satAdd8 p.total, cands := observe p.cands a seq ts m } with
-  | some w => left; exact (commit_is_rule_winner s a ssrc seq ts m p w hon hl hp hleg hw).2.1
-  | none =>
-    right
-    have h := no_winner_keeps_probation s a ssrc seq ts m p hon hl hp hleg hw
-    refine ⟨h.1, by simp [s', receive, hon], by simp [s', receive], _, h.2, ?_, rfl, ?_⟩
-    · simp [satAdd8]; unfold PInv at hinv; omega
-    · -- no winner although the table is non-empty ⇒ still below the limit
-      have hne := observe_ne_nil p.cands a seq ts m
-      have : ¬ (satAdd8 p.total ≥ p.max) := by
-        intro hge
-        have := winner_isSome_of_limit
-          { p with total := satAdd8 p.total, cands := observe p.cands a seq ts m } hne hge
-        simp [hw] at this
-      unfold PInv at *; simp [satAdd8] at *; omega
+/-- number of expected-SSRC RTP packets in an op sequence, each judged against the expectation in
+force when it arrives -/
+def legitCount (s : St) : List Op → Nat
+  | [] => 0
+  | o :: os => (match o with | .pkt _ k => if Legit s k then 1 else 0 | _ => 0) + legitCount (step s o) os
 
-/-- A packet that is not legitimate RTP leaves the probation state and latch flags alone. -/
-theorem nonlegit_frame (s : St) (a : Addr) (k : Kind) (h : ¬ Legit s k) :
-    (receive s a k).prob = s.prob ∧ (receive s a k).rtpLatched = s.rtpLatched ∧
-    (receive s a k).latchOn = s.latchOn ∧ (receive s a k).expected = s.expected := by
-  cases k <;> simp [receive]
-  rename_i ssrc seq ts m
-  simp [Legit] at h
-  simp [rtpLatch, h]
+/-- the sequence contains nothing that (re)arms the probation window: no `reset_latch`, no signaling
+retarget, no `enable_latch_on_rtp`, no *change* of the expected SSRC. Selected-pair updates, RTCP
+address updates, `set_probation_max_packets` and re-announcing the same SSRC are allowed. -/
+def NoRearm (s : St) : List Op → Prop
+  | [] => True
+  | o :: os => (match o with
+      | .reset | .sig _ | .enable => False
+      | .ssrc v => v = s.expected
+      | _ => True) ∧ NoRearm (step s o) os
 
-/-- **commit_within_max_packets**: for every packet sequence (any sources, any kinds, any order),
-once the number of legitimate RTP packets reaches what is left of the probation window the
-latch has committed. No bound on the length of the sequence. -/
-theorem commit_within_max_packets (pkts : List (Addr × Kind)) (s : St) (p : Prob)
+def decNoRearm : (s : St) → (ops : List Op) → Decidable (NoRearm s ops)
+  | _, [] => isTrue trivial
+  | s, o :: os =>
+    have : Decidable (NoRearm (step s o) os) := decNoRearm (step s o) os
+    by unfold NoRearm; cases o <;> simp only [] <;> infer_instance
+instance (s : St) (ops : List Op) : Decidable (NoRearm s ops) := decNoRearm s ops
+
+/-- **commit_within_max_packets**: for every operation sequence that does not re-arm the window —
+packets of any kind from any sources in any order, interleaved with pair / RTCP-address / window-size
+updates — once the number of expected-SSRC RTP packets reaches what is left of the probation
+window the latch has committed. No bound on the length of the sequence. -/
+theorem commit_within_max_packets (ops : List Op) (s : St) (p : Prob)
     (hon : s.latchOn = true) (hl : s.rtpLatched = false) (hp : s.prob = some p) (hinv : PInv p)
-    (hcount : p.max - p.total ≤ (pkts.filter (fun x => decide (Legit s x.2))).length) :
-    (run s (pkts.map (fun x => Op.pkt x.1 x.2))).rtpLatched = true := by
-  induction pkts generalizing s p with
-  | nil => simp at hcount; unfold PInv at hinv; omega
-  | cons x rest ih =>
-    obtain ⟨a, k⟩ := x
-    simp only [List.map_cons, run, List.foldl_cons, step]
-    have latched_run : ∀ (t : St) (l : List (Addr × Kind)), t.rtpLatched = true →
-        (run t (l.map (fun x => Op.pkt x.1 x.2))).rtpLatched = true := by
-      intro t l ht
+    (hno : NoRearm s ops) (hcount : p.max - p.total ≤ legitCount s ops) :
+    (run s ops).rtpLatched = true := by
+  induction ops generalizing s p with
+  | nil => simp [legitCount] at hcount; unfold PInv at hinv; omega
+  | cons o os ih =>
+    simp only [run, List.foldl_cons]
+    obtain ⟨ho, hno'⟩ := hno
+    -- once latched, the rest of a non-rearming sequence keeps it
+    have latched_rest : ∀ (t : St) (l : List Op), t.latchOn = true → t.rtpLatched = true → NoRearm t l →
+        (run t l).rtpLatched = true := by
+      intro t l
       induction l generalizing t with
-      | nil => simpa [run]
+      | nil => intro _ h _; simpa [run]
       | cons y l ihl =>
-        simp only [List.map_cons, run, List.foldl_cons, step]
-        exact ihl _ (receive_latched_mono t y.1 y.2 ht)
-    by_cases hk : Legit s k
-    · cases k <;> simp [Legit] at hk
-      rename_i ssrc seq ts m
-      rcases legit_packet_progress s a ssrc seq ts m p hon hl hp hinv hk with h | ⟨h1, h2, h3, p', hp', ht, hm, hi⟩
-      · exact latched_run _ _ h
-      · refine ih _ p' h2 h1 hp' hi ?_
-        have hL : ∀ k', Legit (receive s a (.rtp ssrc seq ts m)) k' ↔ Legit s k' := by
-          intro k'; cases k' <;> simp [Legit, h3]
-        have hd : decide (Legit s (Kind.rtp ssrc seq ts m)) = true := by simp [Legit, hk]
-        simp only [List.filter_cons, hd, if_true, List.length_cons] at hcount
-        simp only [hL]
-        omega
-    · have hf := nonlegit_frame s a k hk
-      refine ih _ p (hf.2.2.1.trans hon) (hf.2.1.trans hl) (hf.1.trans hp) hinv ?_
-      have hL : ∀ k', Legit (receive s a k) k' ↔ Legit s k' := by
-        intro k'; cases k' <;> simp [Legit, hf.2.2.2]
-      simp only [List.filter_cons, hk, decide_false] at hcount
-      simp only [hL]
-      simpa using hcount
+        intro hton ht hn
+        have hy : NonReset y := by
+          have := hn.1; cases y <;> simp_all [NonReset]
+        have h1 := latched_sticky_step t y hton ht hy
+        simp only [run, List.foldl_cons]
+        exact ihl _ h1.2.2 h1.2.1 hn.2
+    -- an op that is not a legit packet keeps the window as it is
+    have keep : (step s o).latchOn = true → (step s o).rtpLatched = false → (step s o).prob = some p →
+        legitCount s (o :: os) = legitCount (step s o) os → (List.foldl step (step s o) os).rtpLatched = true := by
+      intro h1 h2 h3 h4
+      exact ih (step s o) p h1 h2 h3 hinv hno' (by rw [← h4]; exact hcount)
+    cases o with
+    | pkt a k =>
+      by_cases hk : Legit s k
+      · cases k <;> simp [Legit] at hk
+        rename_i ssrc seq ts m
+        have hinv' := hinv
+        unfold PInv at hinv'
+        rcases legit_packet_progress s a ssrc seq ts m p hon hl hp hinv.1 hinv.2 hk with h | ⟨h1, h2, p', hp', ht, hm, hlt'⟩
+        · exact latched_rest _ _ (by simp [step, receive, hon]) h hno'
+        · refine ih _ p' h2 h1 hp' ⟨hlt', by omega⟩ hno' ?_
+          have : legitCount s (Op.pkt a (Kind.rtp ssrc seq ts m) :: os) =
+              1 + legitCount (step s (Op.pkt a (Kind.rtp ssrc seq ts m))) os := by
+            simp [legitCount, Legit, hk]
+          omega
+      · have hf := nonlegit_frame s a k (by
+          cases k <;> simp_all [Legit])
+        refine keep (hf.2.2.trans hon) (hf.2.1.trans hl) (hf.1.trans hp) ?_
+        simp [legitCount, hk]
+    | enable => exact absurd ho (by simp)
+    | reset => exact absurd ho (by simp)
+    | sig a => exact absurd ho (by simp)
+    | pair a =>
+      refine keep ?_ ?_ ?_ (by simp [legitCount]) <;>
+        (simp only [step, setFromPair]; split <;> simp_all)
+    | ssrc v =>
+      have hv : s.expected = v := by simpa using ho.symm
+      refine keep ?_ ?_ ?_ (by simp [legitCount]) <;> simp [step, setExpectedSsrc_same s v hv, hon, hl, hp]
+    | maxp v => exact keep (by simp [step, hon]) (by simp [step, hl]) (by simp [step, hp]) (by simp [legitCount])
+    | rtcpAddr a =>
+      exact keep (by simp [step, setRtcpAddr, hon]) (by simp [step, setRtcpAddr, hl])
+        (by simp [step, setRtcpAddr, hp]) (by simp [legitCount])
 
-/-- without probation (`max = 0`) the first legitimate packet commits to its source -/
-theorem immediate_latch (s : St) (a : Addr) (ssrc seq ts : Nat) (m : Bool)
-    (hon : s.latchOn = true) (hl : s.rtpLatched = false) (hp : s.prob = none)
-    (hleg : s.expected = 0 ∨ ssrc = s.expected) :
-    (receive s a (.rtp ssrc seq ts m)).rtpLatched = true ∧ (receive s a (.rtp ssrc seq ts m)).remote = a := by
-  have hm : (moveTo (adopt s a) s.remote a).remote = a := moveTo_remote _ _ _ (adopt_remote s a)
-  simp [receive, rtpLatch, hon, hl, hp, hleg, hm]
+/-- non-vacuity: the windows that `enable_latch_on_rtp`, `reset_latch` and a signaling retarget arm
+satisfy `PInv` for every `u8` window size, and a concrete run meets all hypotheses of
+`commit_within_max_packets` with interleaved RTCP, wrong-SSRC RTP and a pair update. -/
+example (a : Addr) (m : Nat) (tcp : Bool) (h0 : 0 < m) (h255 : m ≤ 255) :
+    ∃ p, (enableLatch (init a m tcp)).prob = some p ∧ PInv p ∧
+      (resetLatch (enableLatch (init a m tcp))).prob = some p ∧
+      (setFromSignaling (enableLatch (init a m tcp)) a).prob = some p := by
+  refine ⟨⟨[], 0, m⟩, ?_, ⟨h0, h255⟩, ?_, ?_⟩ <;>
+    simp [enableLatch, init, resetLatch, setFromSignaling, freshProb, h0]
 
+example :
+    let s := run (init ⟨0, 0⟩ 2 false) [.ssrc 7, .enable]
+    let ops : List Op := [.pkt ⟨1, 5001⟩ .rtcp, .pkt ⟨1, 5001⟩ (.rtp 7 10 0 false), .pair ⟨5, 5005⟩,
+      .pkt ⟨3, 5003⟩ (.rtp 9 1 0 true), .pkt ⟨2, 5002⟩ (.rtp 7 20 0 false)]
+    s.latchOn = true ∧ s.rtpLatched = false ∧ s.prob = some ⟨[], 0, 2⟩ ∧ PInv ⟨[], 0, 2⟩ ∧
+    NoRearm s ops ∧ 2 - 0 ≤ legitCount s ops ∧ (run s ops).rtpLatched = true := by
+  refine ⟨by decide, by decide, by decide, ⟨by decide, by decide⟩, by decide, by decide, by decide⟩
 
 /-! ### The destination only moves to legitimate sources -/
 
-/-- addresses an operation makes legitimate: the source of an RTP packet carrying the expected
-SSRC (any SSRC when none is known), or an address given by signaling / ICE pair selection -/
-def legit (s : St) : Op → List Addr
-  | .pkt a k => if Legit s k then [a] else []
-  | .sig a => [a]
-  | .pair a => [a]
-  | _ => []
+/-- `win`: the addresses from which RTP carrying the *currently* expected SSRC (any RTP when none
+is known) was received since the probation window was last (re)armed. Cleared by `reset_latch`, a
+signaling retarget and a change of the expected SSRC. -/
+def winStep (s : St) (win : List Addr) : Op → List Addr
+  | .pkt a k => if Legit s k then win ++ [a] else win
+  | .reset | .sig _ => []
+  | .ssrc v => if v = s.expected then win else []
+  | _ => win
 
-/-- all addresses made legitimate along a run (the state is threaded only to know the expected
-SSRC in force when each packet arrives) -/
-def allowed (s : St) : List Op → List Addr
-  | [] => []
-  | o :: os => legit s o ++ allowed (step s o) os
+/-- latching is enabled and every candidate of the probation table is in `win` -/
+def Inv (s : St) (win : List Addr) : Prop :=
+  s.latchOn = true ∧ ∀ p, s.prob = some p → ∀ c ∈ p.cands, c.addr ∈ win
 
-def OpPortOk : Op → Prop
-  | .pkt a _ => a.port ≠ 0
-  | .sig a => a.port ≠ 0
-  | .pair a => a.port ≠ 0
-  | _ => True
+/-- what one operation may do to the RTP destination:
+* a packet — only an expected-SSRC RTP packet arriving while the latch is open moves it, and only
+  to its own source or to an earlier source of such RTP in the current window;
+* a signaling retarget sets it to the signaled address;
+* a selected-pair update sets it to the pair address only while the latch is open;
+* nothing else changes it. -/
+def StepOk (s : St) (win : List Addr) (o : Op) : Prop :=
+  match o with
+  | .pkt a k => (step s o).remote = s.remote ∨
+      (Legit s k ∧ s.rtpLatched = false ∧ ((step s o).remote = a ∨ (step s o).remote ∈ win))
+  | .sig a => (step s o).remote = a
+  | .pair a => (step s o).remote = s.remote ∨ ((step s o).remote = a ∧ s.rtpLatched = false)
+  | _ => (step s o).remote = s.remote
 
-def CandsIn (s : St) (acc : List Addr) : Prop :=
-  ∀ p, s.prob = some p → ∀ c ∈ p.cands, c.addr ∈ acc
+def AllStepsOk (s : St) (win : List Addr) : List Op → Prop
+  | [] => True
+  | o :: os => StepOk s win o ∧ AllStepsOk (step s o) (winStep s win o) os
 
-theorem no_winner_remote (s : St) (a : Addr) (ssrc seq ts : Nat) (m : Bool) (p : Prob)
-    (hon : s.latchOn = true) (hl : s.rtpLatched = false) (hp : s.prob = some p)
-    (hleg : s.expected = 0 ∨ ssrc = s.expected)
-    (hw : winner { p with total := satAdd8 p.total, cands := observe p.cands a seq ts m } = none) :
-    (receive s a (.rtp ssrc seq ts m)).remote = a := by
-  have hm : (moveTo (adopt s a) s.remote a).remote = a := moveTo_remote _ _ _ (adopt_remote s a)
-  simp only [receive, rtpLatch, adopt_latchOn, adopt_rtpLatched, adopt_expected, adopt_prob, hon, hl, hp]
-  simp [hleg, hw, hm]
-
-theorem move_step (s : St) (o : Op) (acc : List Addr) (hw : Wf s) (hc : CandsIn s acc)
-    (hpo : OpPortOk o) (hacc : ∀ a ∈ acc, a.port ≠ 0) :
-    ((step s o).remote = s.remote ∨ (step s o).remote ∈ acc ++ legit s o) ∧
-    Wf (step s o) ∧ CandsIn (step s o) (acc ++ legit s o) := by
-  obtain ⟨hu, hp⟩ := hw
-  have hmono : ∀ l, CandsIn s (acc ++ l) := fun l p hp' c hc' => by simp [hc p hp' c hc']
+private theorem move_step (s : St) (win : List Addr) (o : Op) (hi : Inv s win) :
+    StepOk s win o ∧ Inv (step s o) (winStep s win o) := by
+  obtain ⟨hon, hc⟩ := hi
+  have hmono : ∀ l, ∀ p, s.prob = some p → ∀ c ∈ p.cands, c.addr ∈ win ++ l :=
+    fun l p hp' c hc' => by simp [hc p hp' c hc']
   cases o with
   | pkt a k =>
-    have had := adopt_udp s a hu hp
+    have had := adopt_on s a hon
     by_cases hk : Legit s k
     · cases k <;> simp [Legit] at hk
       rename_i ssrc seq ts m
-      have hlg : legit s (.pkt a (.rtp ssrc seq ts m)) = [a] := by simp [legit, Legit, hk]
-      simp only [OpPortOk] at hpo
-      by_cases hact : s.latchOn = true ∧ s.rtpLatched = false
-      · obtain ⟨hon, hl⟩ := hact
-        cases hpr : s.prob with
+      have hwin : winStep s win (.pkt a (.rtp ssrc seq ts m)) = win ++ [a] := by simp [winStep, Legit, hk]
+      rw [hwin]
+      by_cases hl : s.rtpLatched = false
+      · cases hpr : s.prob with
         | none =>
-          have h := immediate_latch s a ssrc seq ts m hon hl hpr hk
-          refine ⟨Or.inr (by simp [step, h.2, hlg]), ⟨by simp [step, receive, hu], by simp [step, h.2, hpo]⟩, ?_⟩
+          have h := immediate_step s a ssrc seq ts m hon hl hpr hk
+          refine ⟨Or.inr ⟨by simp [Legit, hk], hl, Or.inl (by simp [step, h.2])⟩, by simp [step, receive, hon], ?_⟩
           intro p' hp'; simp [step, receive, rtpLatch, had, hon, hl, hpr, hk] at hp'
         | some p =>
-          cases hwin : winner { p with total := satAdd8 p.total, cands := observe p.cands a seq ts m } with
+          cases hwn : winner { p with total := satInc totalMax p.total, cands := observe p.cands a seq ts m } with
           | some w =>
-            have h := commit_is_rule_winner s a ssrc seq ts m p w hon hl hpr hk hwin
-            obtain ⟨c, hcm, hca⟩ := winner_mem _ _ hwin
-            have hwacc : w ∈ acc ++ [a] := by
+            have h := commit_step s a ssrc seq ts m p w hon hl hpr hk hwn
+            obtain ⟨c, hcm, hca⟩ := winner_mem _ _ hwn
+            have hw : w = a ∨ w ∈ win := by
               rcases observe_addr_mem _ _ _ _ _ _ hcm with h' | ⟨c', hc', he⟩
-              · simp [← hca, h']
-              · simp [← hca, ← he, hc p hpr c' hc']
-            have hwport : w.port ≠ 0 := by
-              simp at hwacc; rcases hwacc with h' | h'
-              · exact hacc w h'
-              · simpa [h'] using hpo
-            refine ⟨Or.inr (by simp only [step, h.1, hlg]; exact hwacc),
-              ⟨by simp [step, receive, hu], by simp only [step, h.1]; exact hwport⟩, ?_⟩
+              · left; rw [← hca, h']
+              · right; rw [← hca, ← he]; exact hc p hpr c' hc'
+            refine ⟨Or.inr ⟨by simp [Legit, hk], hl, by simpa [step, h.1] using hw⟩, by simp [step, receive, hon], ?_⟩
             intro p' hp'; simp [step, h.2.2] at hp'
           | none =>
-            have h := no_winner_keeps_probation s a ssrc seq ts m p hon hl hpr hk hwin
-            have hr := no_winner_remote s a ssrc seq ts m p hon hl hpr hk hwin
-            refine ⟨Or.inr (by simp [step, hr, hlg]), ⟨by simp [step, receive, hu], by simp [step, hr, hpo]⟩, ?_⟩
+            have h := no_winner_step s a ssrc seq ts m p hon hl hpr hk hwn
+            refine ⟨Or.inr ⟨by simp [Legit, hk], hl, Or.inl (by simp [step, h.2.1])⟩, by simp [step, receive, hon], ?_⟩
             intro p' hp' c hcm
-            simp only [step, h.2, Option.some.injEq] at hp'
+            simp only [step, h.2.2, Option.some.injEq] at hp'
             subst hp'
             rcases observe_addr_mem _ _ _ _ _ _ hcm with h' | ⟨c', hc', he⟩
-            · simp [hlg, h']
-            · simp [hlg, ← he, hc p hpr c' hc']
-      · have : receive s a (.rtp ssrc seq ts m) = s := by
-          simp only [receive, had, rtpLatch]
-          rw [if_neg]; intro hh; exact hact ⟨hh.1, by simpa using hh.2.1⟩
-        simp only [step, this]
-        exact ⟨Or.inl trivial, ⟨hu, hp⟩, hmono _⟩
+            · simp [h']
+            · simp [← he, hc p hpr c' hc']
+      · have hl' : s.rtpLatched = true := by simpa using hl
+        have : receive s a (.rtp ssrc seq ts m) = s := by
+          simp [receive, had, rtpLatch_latched _ _ _ _ _ _ _ hl']
+        refine ⟨Or.inl (by simp [step, this]), by simp [step, this, hon], ?_⟩
+        intro p' hp'; simp only [step, this] at hp'; exact hmono _ p' hp'
     · have hf := nonlegit_frame s a k hk
       have hr : (receive s a k).remote = s.remote := by
         cases k <;> simp [receive, had]
         rename_i ssrc seq ts m
         simp [Legit] at hk; simp [rtpLatch, hk]
-      refine ⟨Or.inl (by simp [step, hr]), ⟨?_, by simp [step, hr, hp]⟩, ?_⟩
-      · cases k <;> simp [step, receive, hu]
-      · intro p' hp'; simp only [step, hf.1] at hp'; exact hmono _ p' hp'
+      have hwin : winStep s win (.pkt a k) = win := by simp [winStep, hk]
+      rw [hwin]
+      refine ⟨Or.inl (by simp [step, hr]), by simp [step, hf.2.2, hon], ?_⟩
+      intro p' hp'; simp only [step, hf.1] at hp'; exact hc p' hp'
   | enable =>
-    refine ⟨Or.inl ?_, ?_, ?_⟩
-    · simp only [step, enableLatch]; split <;> (try split) <;> rfl
-    · simp only [step, enableLatch]; split <;> (try split) <;> exact ⟨hu, hp⟩
-    · intro p' hp'
-      simp only [step, enableLatch] at hp'
-      split at hp'
-      · split at hp'
-        · simp at hp'; subst hp'; simp
-        · exact hmono _ p' (by simpa using hp')
-      · simp at hp'
+    refine ⟨by simp [StepOk, step], by simp [step], ?_⟩
+    intro p' hp'
+    simp only [step, enableLatch] at hp'
+    split at hp'
+    · split at hp'
+      · simp at hp'; subst hp'; simp
+      · exact hc p' (by simpa using hp')
+    · simp at hp'
   | reset =>
-    refine ⟨Or.inl rfl, ⟨hu, hp⟩, ?_⟩
+    refine ⟨by simp [StepOk, step, resetLatch], by simp [step, resetLatch, hon], ?_⟩
     intro p' hp'
     simp only [step, resetLatch, freshProb] at hp'
     split at hp' <;> simp at hp'
     subst hp'; simp
   | sig a =>
-    simp only [OpPortOk] at hpo
-    refine ⟨Or.inr (by simp [step, setFromSignaling, legit]), ⟨hu, by simp [step, setFromSignaling, hpo]⟩, ?_⟩
+    refine ⟨by simp [StepOk, step, setFromSignaling], by simp [step, setFromSignaling, resetLatch, hon], ?_⟩
     intro p' hp'
     simp only [step, setFromSignaling, resetLatch, freshProb] at hp'
     split at hp' <;> simp at hp'
     subst hp'; simp
   | pair a =>
-    simp only [OpPortOk] at hpo
-    simp only [step, setFromPair]
+    simp only [StepOk, step, setFromPair, winStep]
     split
-    · exact ⟨Or.inl rfl, ⟨hu, hp⟩, hmono _⟩
-    · exact ⟨Or.inr (by simp [legit]), ⟨hu, by simpa using hpo⟩, fun p' hp' => hmono _ p' hp'⟩
-  | ssrc v => exact ⟨Or.inl rfl, ⟨hu, hp⟩, fun p' hp' => hmono _ p' hp'⟩
-  | maxp v => exact ⟨Or.inl rfl, ⟨hu, hp⟩, fun p' hp' => hmono _ p' hp'⟩
-  | rtcpAddr a => exact ⟨Or.inl rfl, ⟨hu, hp⟩, fun p' hp' => hmono _ p' hp'⟩
+    · exact ⟨Or.inl rfl, hon, hc⟩
+    · rename_i hg
+      refine ⟨?_, by simpa using hon, fun p' hp' => hc p' hp'⟩
+      by_cases hra : s.remote = a
+      · left; simp [hra]
+      · right; refine ⟨rfl, ?_⟩
+        simp [hon, hra] at hg; simpa using hg
+  | ssrc v =>
+    refine ⟨by simp [StepOk, step], by simp [step, hon], ?_⟩
+    intro p' hp'
+    simp only [step, setExpectedSsrc, winStep] at hp' ⊢
+    split at hp'
+    · rename_i hne
+      simp at hp'
+      obtain ⟨q, _, rfl⟩ := hp'
+      simp
+    · rename_i he
+      have he' : v = s.expected := by simpa using (Eq.symm (by simpa using he))
+      simp [he']; exact hc p' hp'
+  | maxp v => exact ⟨by simp [StepOk, step], by simpa [step] using hon, fun p' hp' => hc p' (by simpa [step] using hp')⟩
+  | rtcpAddr a => exact ⟨by simp [StepOk, step, setRtcpAddr], by simpa [step, setRtcpAddr] using hon,
+      fun p' hp' => hc p' (by simpa [step, setRtcpAddr] using hp')⟩
 
-/-- **move_only_to_legit_source**: over every operation sequence, the RTP destination either is
-what it was or is an address that was made legitimate along the way — the source of an RTP
-packet carrying the expected SSRC, or an address supplied by signaling / pair selection.
-RTCP, wrong-SSRC RTP, DTLS or garbage from any address can never become the destination. -/
-theorem move_only_to_legit_source (ops : List Op) (s : St) (hw : Wf s)
-    (hc : ∀ p, s.prob = some p → p.cands = []) (hpo : ∀ o ∈ ops, OpPortOk o) :
-    (run s ops).remote = s.remote ∨ (run s ops).remote ∈ allowed s ops := by
-  suffices h : ∀ (ops : List Op) (s : St) (acc : List Addr), Wf s → CandsIn s acc →
-      (∀ a ∈ acc, a.port ≠ 0) → (∀ o ∈ ops, OpPortOk o) →
-      (run s ops).remote = s.remote ∨ (run s ops).remote ∈ acc ++ allowed s ops by
-    have := h ops s [] hw (fun p hp c hcm => by simp [hc p hp] at hcm) (by simp) hpo
-    simpa using this
-  intro ops
-  induction ops with
-  | nil => intro s acc _ _ _ _; left; rfl
+/-- **move_only_to_legit_source**: along EVERY operation sequence with latching enabled, every
+single change of the RTP destination is one that `StepOk` allows: caused by an expected-SSRC RTP
+packet and going to a source of such RTP in the current window (its own source or an earlier
+candidate), or an explicit signaling retarget / selected-pair update while the latch is open.
+RTCP, wrong-SSRC RTP, DTLS or garbage from any address never move it — also when the destination
+is unset (port 0) or the socket is a TCP stream; sources seen before a reset, a retarget or a change
+of the expected SSRC are not eligible afterwards. -/
+theorem move_only_to_legit_source (ops : List Op) (s : St) (win : List Addr) (hi : Inv s win) :
+    AllStepsOk s win ops := by
+  induction ops generalizing s win with
+  | nil => trivial
   | cons o os ih =>
-    intro s acc hw hc hacc hpo
-    have hs := move_step s o acc hw hc (hpo o (by simp)) hacc
-    have hacc' : ∀ a ∈ acc ++ legit s o, a.port ≠ 0 := by
-      intro a ha; simp at ha; rcases ha with ha | ha
-      · exact hacc a ha
-      · have hpo' := hpo o (by simp)
-        cases o <;> simp [legit] at ha
-        · rename_i a' k; obtain ⟨_, ha⟩ := ha; subst ha; exact hpo'
-        · subst ha; exact hpo'
-        · subst ha; exact hpo'
-    have := ih (step s o) (acc ++ legit s o) hs.2.1 hs.2.2 hacc' (fun o' ho' => hpo o' (by simp [ho']))
-    simp only [run, List.foldl_cons, allowed] at *
-    rcases this with h | h
-    · rcases hs.1 with h' | h'
-      · left; exact h.trans h'
-      · right; rw [h]; simp at h' ⊢; rcases h' with h' | h' <;> simp [h']
-    · right; simp at h ⊢; rcases h with h | h | h <;> simp [h]
+    have h := move_step s win o hi
+    exact ⟨h.1, ih _ _ h.2⟩
+
+/-- non-vacuity of `Inv`: any connection right after `enable_latch_on_rtp`, with nothing observed
+yet; and a run in which the destination does move (so `StepOk`'s right-hand sides are inhabited) -/
+example (a : Addr) (m : Nat) (tcp : Bool) : Inv (enableLatch (init a m tcp)) [] := by
+  refine ⟨by simp, ?_⟩
+  intro p hp
+  by_cases hm : m > 0 <;> simp [enableLatch, init, hm] at hp
+  subst hp; simp
+
+example : (run (enableLatch (init ⟨0, 0⟩ 3 false)) [.pkt ⟨1, 5001⟩ (.rtp 7 1 0 false)]).remote = ⟨1, 5001⟩ := by decide
+
+/-- declared reading (see NOTES/C18.md, propcfg assumption 2): while the latch is OPEN a
+selected-pair update moves the destination to an address that never sent RTP — in RTP mode such an
+update can be caused by an unauthenticated STUN binding request from the pair's port on another IP
+(`ice/mod.rs`); once latched the same update is refused (`latched_sticky`). -/
+example :
+    let s := run (init ⟨9, 5009⟩ 6 false) [.ssrc 7, .enable]
+    (step s (.pair ⟨3, 5009⟩)).remote = ⟨3, 5009⟩ ∧
+    (step (step s (.pkt ⟨1, 5001⟩ (.rtp 7 1 0 true))) (.pair ⟨3, 5009⟩)).remote = ⟨1, 5001⟩ := by decide
+
+/-! ### An API call racing with `receive`
+
+`RtcModel.LatchRace`: the receive thread and the API thread advance from yield point to yield point
+in any order (a schedule is any `List Bool`); the probation mutex excludes the two critical sections;
+the unlocked fast-path test of `rtp_latched` may observe any intermediate state. -/
+
+open RtcModel.LatchRace in
+/-- **latch_api_serializable**: for every initial state with latching enabled, every RTP packet,
+each of the three latch API calls (`reset_latch`, signaling retarget, selected-pair update) and
+EVERY schedule that lets both threads finish, the final state is the state reached by running the
+two calls one after the other in one of the two orders — so every sequential theorem above
+(stickiness, legitimacy of moves, commit) also holds when the API call comes from another task
+while a packet is being received. (False before the lock-discipline `fix:`; the failing schedules
+were executed on the real code, see `known_findings.d/C18.json`.) -/
+theorem latch_api_serializable (s0 : St) (a : Addr) (ssrc seq ts : Nat) (m : Bool) (api : Op) (A : Crit)
+    (hA : apiCrit api = some A) (hon : s0.latchOn = true) (sched : List Bool)
+    (hr : rDone (runSched (recvCrit a ssrc seq ts m) A ⟨s0, .start, .start⟩ sched).r = true)
+    (ha : aDone (runSched (recvCrit a ssrc seq ts m) A ⟨s0, .start, .start⟩ sched).a = true) :
+    (runSched (recvCrit a ssrc seq ts m) A ⟨s0, .start, .start⟩ sched).st
+        = step (step s0 (.pkt a (.rtp ssrc seq ts m))) api ∨
+    (runSched (recvCrit a ssrc seq ts m) A ⟨s0, .start, .start⟩ sched).st
+        = step (step s0 api) (.pkt a (.rtp ssrc seq ts m)) := by
+  have hrecv : ∀ t : St, t.latchOn = true →
+      (recvCrit a ssrc seq ts m).full t = receive t a (.rtp ssrc seq ts m) := by
+    intro t ht; simp [recvCrit, receive, adopt_on t a ht]
+  cases api <;> simp [apiCrit] at hA <;> subst hA
+  · -- reset_latch
+    have h := reach_done _ _ (facts_reset a ssrc seq ts m) s0 _
+      (reach_run _ _ (facts_reset a ssrc seq ts m) s0 sched _ (reach_init _ _ s0)) hr ha
+    rw [hrecv s0 hon, hrecv _ (by simp [resetCrit, resetLatch, hon])] at h
+    simpa [step, resetCrit] using h
+  · -- signaling retarget
+    rename_i x
+    have h := reach_done _ _ (facts_sig a ssrc seq ts m x) s0 _
+      (reach_run _ _ (facts_sig a ssrc seq ts m x) s0 sched _ (reach_init _ _ s0)) hr ha
+    rw [hrecv s0 hon, hrecv _ (by simp [sigCrit, setFromSignaling, resetLatch, hon])] at h
+    simpa [step, sigCrit] using h
+  · -- selected-pair update
+    rename_i x
+    have h := reach_done _ _ (facts_pair a ssrc seq ts m x) s0 _
+      (reach_run _ _ (facts_pair a ssrc seq ts m x) s0 sched _ (reach_init _ _ s0)) hr ha
+    have hp : (setFromPair s0 x).latchOn = true := by unfold setFromPair; split <;> simp [hon]
+    rw [hrecv s0 hon, hrecv _ (by simpa [pairCrit] using hp)] at h
+    simpa [step, pairCrit] using h
+
+open RtcModel.LatchRace in
+/-- non-vacuity: a schedule in which the retarget overtakes a committing packet between its unlocked
+test and its critical section finishes, and the outcome is the api-first order (which differs from
+the receive-first order) -/
+example :
+    let s0 := run (init ⟨9, 5009⟩ 6 false) [.ssrc 7, .enable]
+    let y := runSched (recvCrit ⟨1, 5001⟩ 7 10 10 true) (sigCrit ⟨4, 5004⟩) ⟨s0, .start, .start⟩
+      [true, false, false, false, false, true, true, true, true]
+    rDone y.r = true ∧ aDone y.a = true ∧
+    y.st = step (step s0 (.sig ⟨4, 5004⟩)) (.pkt ⟨1, 5001⟩ (.rtp 7 10 10 true)) ∧
+    y.st ≠ step (step s0 (.pkt ⟨1, 5001⟩ (.rtp 7 10 10 true))) (.sig ⟨4, 5004⟩) := by decide
+
+/-! ### Superseded code (kept as documentation of what the three round-2 fixes changed)
+
+`adoptOld` / `winnerOld` are the pre-fix definitions; nothing else refers to them. -/
+
+/-- pre-fix top of `receive`: adoption regardless of latching -/
+def adoptOld (s : St) (addr : Addr) : St :=
+  if s.remote.port = 0 ∨ (s.tcp ∧ s.remote ≠ addr) then { s with remote := addr } else s
+
+/-- superseded: with the old adoption one RTCP packet set an unset RTP destination although
+latching was enabled (replayed on the real pre-fix code: `init,1,5001,3,0 ss,7 en sg,1,0 p,2,5002,80c9…`) -/
+example : let s := run (init ⟨1, 5001⟩ 3 false) [.ssrc 7, .enable, .sig ⟨1, 0⟩]
+    s.latchOn = true ∧ (rtcpLearn (adoptOld s ⟨2, 5002⟩) ⟨2, 5002⟩).remote = ⟨2, 5002⟩ ∧
+    (receive s ⟨2, 5002⟩ .rtcp).remote = ⟨1, 0⟩ := by decide
+
+/-- pre-fix branch order: marker, timeout, run -/
+def winnerOld (p : Prob) : Option Addr :=
+  match minByFirstSeq (p.cands.filter (·.hasMarker)) with
+  | some mw => some mw.addr
+  | none =>
+    if p.total ≥ p.max then (maxByRule3 p.cands).map (·.addr)
+    else (runWinner p).map (·.addr)
+
+/-- superseded: the old order violated the documented rules on the audit's table -/
+example :
+    let p : Prob := ⟨[⟨⟨2, 5002⟩, 1, 20, 0, 3, 0, false⟩, ⟨⟨1, 5001⟩, 100, 102, 0, 3, 2, false⟩], 6, 6⟩
+    winnerOld p = some ⟨2, 5002⟩ ∧ ¬ Documented p ⟨2, 5002⟩ := by
+  refine ⟨by decide, ?_⟩
+  rintro (⟨c, ⟨hc, hm, _⟩, _⟩ | ⟨_, c, ⟨hc, hcc, _⟩, ha⟩ | ⟨_, h2, _⟩)
+  · simp at hc; rcases hc with rfl | rfl <;> simp at hm
+  · simp at hc; rcases hc with rfl | rfl <;> simp at hcc ha
+  · exact h2 ⟨⟨⟨1, 5001⟩, 100, 102, 0, 3, 2, false⟩, by simp, by decide, by decide⟩
 
 end RtcModel.Theorems.C18
